@@ -288,6 +288,8 @@ func derives(v ssa.Value, s FlowSpec, seen map[seenKey]bool, depth int, fr *Fram
 		return derives(x.X, s, seen, depth+1, fr)
 	case *ssa.Field:
 		return derives(x.X, s, seen, depth+1, fr)
+	case *ssa.Index:
+		return derives(x.X, s, seen, depth+1, fr)
 	case *ssa.UnOp:
 		if x.Op == token.MUL {
 			// a load that directly follows the store it reads (spilled results, `x := v; use(x)`)
@@ -304,7 +306,8 @@ func derives(v ssa.Value, s FlowSpec, seen map[seenKey]bool, depth int, fr *Fram
 					}
 				}
 				if len(vals) == 0 {
-					return false
+					// an aggregate built element by element: see the Alloc case
+					return derives(a, s, seen, depth+1, fr)
 				}
 				return alts(vals)
 			case *ssa.FieldAddr:
